@@ -38,7 +38,8 @@ def generate(streams, tier):
         if k == "bayes":
             op["prior"] = rw.choice(["K2", "BDeu", "dirichlet"])
             op["ess"] = rw.choice([1, 2.5, 5, 10, 0.5])
-            op["pseudo"] = rw.choice(["scalar", "rows"])
+            op["pseudo"] = rw.choice(["scalar", "rows", "rows"])
+            op["pseudo_as"] = rw.choice(["array", "array", "list"])
             op["pseudo_scalar"] = rw.choice([1, 2, 0.5, 3.25])
             op["pseudo_rowvals"] = [rw.choice([0.5, 1.0, 2.0, 4.0]) for _ in range(4)]
         if k == "fit_update":
@@ -168,8 +169,9 @@ def execute(case, ctx):
             seams.reset_environment()
 
 
-def _estimate(op, model, df, sn, names, world):
-    """Runs the estimator described by op; returns list of CPDs (and the model if fitted through model.fit)."""
+def _estimate(op, model, df, sn, names, world, shared=None):
+    """Runs the estimator described by op; returns list of CPDs (and the model if fitted through model.fit).
+    shared: per-operation dict; the prior object built on the first call is handed to every later call of the operation."""
     from pgmpy.estimators import BayesianEstimator, MaximumLikelihoodEstimator
 
     kw = {}
@@ -183,13 +185,17 @@ def _estimate(op, model, df, sn, names, world):
         if pt == "dirichlet":
             if op["pseudo"] == "scalar":
                 kw["pseudo_counts"] = op["pseudo_scalar"]
+            elif shared is not None and "pc" in shared:
+                kw["pseudo_counts"] = shared["pc"]
             else:
                 pc = {}
                 for v in range(world["n"]):
                     ncols = int(np.prod([world["card"][p] for p in world["parents"][v]])) if world["parents"][v] else 1
                     col = np.asarray(op["pseudo_rowvals"][: world["card"][v]], dtype=float).reshape(-1, 1)
-                    pc[names.L(v)] = np.repeat(col, ncols, axis=1)
+                    pc[names.L(v)] = np.repeat(col, ncols, axis=1) if op.get("pseudo_as", "array") == "array" else np.repeat(col, ncols, axis=1).tolist()
                 kw["pseudo_counts"] = pc
+                if shared is not None:
+                    shared["pc"] = pc
     Est = MaximumLikelihoodEstimator if op["op"] == "mle" else BayesianEstimator
     if op.get("via_fit"):
         fkw = dict(kw)
@@ -241,14 +247,24 @@ def _fit_op(case, ctx, op):
     ctx.event(op["op"], op.get("prior"), op["n_jobs"], declared, op.get("via_fit"), op.get("weighted"))
     if any(len({r[v] for r in rows}) < world["card"][v] for v in range(world["n"])):
         ctx.probe("declared_state_unobserved" if declared else "state_unobserved_and_undeclared")
+    shared = {}
     try:
-        cpds, fitted = _estimate(op, model, df, sn, names, w2)
+        cpds, fitted = _estimate(op, model, df, sn, names, w2, shared)
     except Exception as e:
         ctx.fail("succeeds", f"{PROP}:raise:{what}:{type(e).__name__}:{exc_site(e)}", {"exc": exc_brief(e), "via_fit": op.get("via_fit"), "parents": world["parents"]})
         return
     ctx.checked += 1
     want = _want_fn(op, w2, rows2, weights)
     ok = compare_cpds(ctx, cpds, names, w2, want, what)
+    if ok and "pc" in shared:
+        # the same prior object serves a second fit (a user keeps one prior for several data sets / structures)
+        ctx.fault("object_history")
+        try:
+            cpds_b, _ = _estimate(op, build_structure(w2, config, names), df, sn, names, w2, shared)
+        except Exception as e:
+            ctx.fail("succeeds", f"{PROP}:raise:{what}:second_fit:{type(e).__name__}:{exc_site(e)}", exc_brief(e))
+            return
+        ok = compare_cpds(ctx, cpds_b, names, w2, want, what + ":second_fit_same_prior")
     if any((np.asarray(ref_counts(w2, rows2, weights, v)[1]).sum(axis=sorted([v] + list(w2["parents"][v])).index(v)) == 0).any() for v in range(w2["n"])):
         ctx.probe("unseen_parent_configuration")
     if fitted is not None:
@@ -270,7 +286,7 @@ def _fit_op(case, ctx, op):
         seams.reset_environment()
         seams.install_parallel(random.Random(op["jobseed"] + 1), ctx)
         try:
-            cpds2, _ = _estimate(op, model2, df2, sn, names, w2)
+            cpds2, _ = _estimate(op, model2, df2, sn, names, w2, shared)
         except Exception as e:
             ctx.fail("invariance", f"{PROP}:raise_permuted:{what}:{type(e).__name__}:{exc_site(e)}", exc_brief(e))
             return
